@@ -1,8 +1,143 @@
 import GceTcb.Base.Line
-/- Driver handler for stream `c16` (stub: replaced when the property's model lands). -/
+import GceTcb.Base.Sha384
+import GceTcb.Model.Extract
+import GceTcb.Model.Sp800155
+/- Driver handler for stream `c16` (endorsement discovery: names, extraction decision logic,
+   UEFI variable paths, emitted SP800-155 events). -/
 namespace GceTcb.Drive.C16
-open GceTcb
+open GceTcb GceTcb.Extract GceTcb.Sp800155
 
-def handle (_f : Fields) : String := "unimplemented"
+def strHex (s : String) : String := hexEncode s.toUTF8.toList
+
+def hexOr (s : String) : Bytes := (hexDecode s).getD []
+
+def showUrl : Url → String
+  | .derived s => strHex s
+  | .verbatim loc => hexEncode loc
+
+def showOut : Outcome Bytes → String
+  | .ok b => "ok out=" ++ hexEncode b
+  | .err c => "err=" ++ c ++ " out="
+  | .panic _ => "panic out="
+
+def showRes (r : Res) (withPaths : Bool := true) : String :=
+  showOut r.out ++ " urls=" ++ ";".intercalate (r.urls.map showUrl) ++
+    " paths=" ++ (if withPaths then ";".intercalate (r.paths.map strHex) else "*") ++ s!" prov={r.provCalls}"
+
+/-- `none`, `sev:meas:extra` (extra a dash when absent) or `tdx:mrtd` -/
+def parseTee (s : String) : Option Tee :=
+  match s.splitOn ":" with
+  | ["sev", m, x] => some (.sev (hexOr m) (if x == "-" then none else some (hexOr x)))
+  | ["tdx", m] => some (.tdx (hexOr m))
+  | _ => none
+
+/-- `et/loctype/mfr/locator`, or `et` followed by a slash and a dash for an event without RIM data -/
+def parseLogEvent (s : String) : Option LogEvent :=
+  match s.splitOn "/" with
+  | [et, "-"] => some ⟨et.toNat?.getD 0, none⟩
+  | [et, lt, mfr, loc] => some ⟨et.toNat?.getD 0, some ⟨hexOr mfr, lt.toNat?.getD 0, hexOr loc⟩⟩
+  | _ => none
+
+/-- "none" | "unreadable" | "p[;event]*" -/
+def parseEventLog (s : String) : Option EventLog :=
+  match s.splitOn ";" with
+  | "p" :: evs => some (.parsed (evs.filterMap parseLogEvent))
+  | ["unreadable"] => some .unreadable
+  | _ => none
+
+/-- "" | "pathhex:contenthex[,...]" -/
+def parseFs (s : String) : List (String × Bytes) :=
+  if s == "" then [] else
+  (s.splitOn ",").filterMap fun e =>
+    match e.splitOn ":" with
+    | [p, c] => some (p, hexOr c)
+    | _ => none
+
+def mkEnv (fs : List (String × Bytes)) (getter : String) (sjOverride : Option (Option String)) : Env :=
+  { secureJoin := fun root u => match sjOverride with
+      | some r => r
+      | none => secureJoinLex root u
+    readFile := fun p => (fs.find? (fun e => e.1 == strHex p)).map (·.2)
+    get := fun u => if getter == "ok" then some ("NET:".toUTF8.toList ++ (match u with
+      | .derived s => s.toUTF8.toList
+      | .verbatim loc => loc)) else none }
+
+def modelRoot : String := "/efi"
+
+def handleEndorse (f : Fields) : String :=
+  let env := mkEnv (parseFs (f.get "fs")) (f.get "getter") none
+  let prov : Option (Option (Option Tee)) :=
+    match f.get "prov" with
+    | "nil" => none
+    | "fail" => some none
+    | s => some (some (parseTee s))
+  let o : Options :=
+    { provider := prov
+      hasGetter := f.get "getter" != "nil"
+      manufacturer := f.bytes "mfr"
+      eventLog := parseEventLog (f.get "el")
+      reader := if f.bool "reader" then some modelRoot else none
+      quote := parseTee (f.get "q")
+      forceFetch := f.bool "force" }
+  showRes (endorsement env o)
+
+def handleReadVar (f : Fields) : String :=
+  let sym := f.bool "sym"
+  -- with symbolic links below the root the library's resolution is not modelled: the harness says
+  -- what the resolved path holds and the path itself is not compared
+  let fileAt : Option Bytes := if f.get "file" == "absent" then none else some (f.bytes "file")
+  let env : Env := if sym then
+      { secureJoin := fun root u => if f.get "file" == "sjerr" then none else (secureJoinLex root u).map (fun _ => "?")
+        readFile := fun _ => fileAt
+        get := fun _ => none }
+    else mkEnv (parseFs (f.get "fs")) "nil" none
+  let o : Options := { provider := none, hasGetter := false, manufacturer := [], eventLog := none,
+                       reader := some modelRoot, quote := none, forceFetch := false }
+  let r := locate env o ⟨[], Gen.Names.rimLocationVariable, f.bytes "loc"⟩
+  -- error classes as far as they are observable from outside: was a path opened, and what was there
+  let r' : Res := match r.out with
+    | .err c => { r with out := .err (if c == "read" || c == "illformed" then c else "nopath") }
+    | _ => r
+  showRes r' (!sym)
+
+def showEvent (tag : String) (e : Option Event3) : String :=
+  match e with
+  | none => s!" {tag}=undecodable"
+  | some e => s!" {tag}g={hexEncode e.guid} {tag}t={e.rimLocatorType} {tag}l={hexEncode e.rimLocator} {tag}m={hexEncode e.firmwareManufacturerStr}" ++
+      s!" {tag}pm={hexEncode e.platformManufacturerStr} {tag}id={e.platformManufacturerID}/{e.firmwareManufacturerID}" ++
+      s!" {tag}mod={hexEncode e.platformModel} {tag}pv={hexEncode e.platformVersion} {tag}fv={hexEncode e.firmwareVersion}" ++
+      s!" {tag}ct={e.platformCertLocatorType} {tag}cl={hexEncode e.platformCertLocator}"
+
+def handleEvents (f : Fields) : String :=
+  match makeEvents Sha384.sha384List utf8Bytes (f.bytes "rnd") (f.bytes "image") with
+  | some [v, u] =>
+    "ok var=" ++ hexEncode v ++ " uri=" ++ hexEncode u ++ showEvent "v" (parseEventData v) ++ showEvent "u" (parseEventData u)
+  | _ => "err"
+
+def handleParse (f : Fields) : String :=
+  match parseEventData (f.bytes "data") with
+  | none => "none"
+  | some e => "ok" ++ showEvent "e" (some e)
+
+def handleName (f : Fields) : String :=
+  let m := f.bytes "meas"
+  let obj := if f.get "tech" == "tdx" then tdxObjectName m else sevObjectName (f.get "fam") m
+  "obj=" ++ strHex obj ++ " url=" ++ strHex (gceTcbURL obj)
+
+def showUrls (us : List Url) : String := "urls=" ++ ";".intercalate (us.map showUrl)
+
+def handle (f : Fields) : String :=
+  match f.get "op" with
+  | "name" => handleName f
+  | "endorse" => handleEndorse f
+  | "readvar" => handleReadVar f
+  | "events" => handleEvents f
+  | "parse" => handleParse f
+  | "closure" =>
+    let m : Option Bytes := if f.get "meas" == "nil" then none else some (f.bytes "meas")
+    showUrls (closureFetch (f.get "fam") m (f.bool "ser") (f.bool "end") (f.bool "getter"))
+  | "sevvalidate" =>
+    showUrls (sevValidateFetch (f.bytes "meas") (f.bool "extra") (f.bool "getter"))
+  | _ => "bad-op"
 
 end GceTcb.Drive.C16
